@@ -7,8 +7,9 @@ HEAD = """module m
   implicit none
   integer, parameter :: wp = 8
 contains
-  subroutine s(a, b, c, a2, b2, n, m2, lo, hi, t, k, r)
+  subroutine s(a, b, c, a2, b2, n, m2, lo, hi, t, k, r, len1)
     integer, intent(in) :: n, m2, lo, hi
+    integer, dimension(0:m2+3), intent(in) :: len1
     real(kind=wp), dimension(0:n+3), intent(inout) :: a, b, c
     real(kind=wp), dimension(0:n+3,0:m2+3), intent(inout) :: a2, b2
     real(kind=wp), intent(inout) :: t, r
@@ -138,6 +139,14 @@ end do"""
 do j = 1, m2
   do i = {inner}
     a2(i,{off('j', dj)}) = a2({off('i', ei)},{off('j', ej)}) + b2(i,j){scal}
+  end do
+end do""")
+    # swap2 with a bound that depends on the other loop's variable only through an array subscript
+    for v, (ob, ib) in enumerate([("1, m2", "1, len1(j)"), ("1, m2", "len1(j), n"), ("1, m2", "1, n, len1(j)")]):
+        add("swap2dep", {"v": v}, f"""
+do j = {ob}
+  do i = {ib}
+    a2(i,j) = a2(i,j) + b2(i,j)
   end do
 end do""")
     # chunk
